@@ -100,6 +100,7 @@ func chansMergeRun[T any](r *R, enc func(int) T, dec func(T) int) {
 		sim.Self().Label = "chans.Merge"
 		defer func() {
 			if p := recover(); p != nil {
+				passThrough(p)
 				if p == sim.Killed {
 					panic(p)
 				}
@@ -188,6 +189,7 @@ func chansMergeHuge[T any](r *R) {
 		sim.Self().Label = "chans.Merge"
 		defer func() {
 			if p := recover(); p != nil {
+				passThrough(p)
 				if p == sim.Killed {
 					panic(p)
 				}
@@ -265,6 +267,7 @@ func replicateRun[T any](r *R, enc func(int) T, dec func(T) int) {
 		sim.Self().Label = "chans.Replicate"
 		defer func() {
 			if p := recover(); p != nil {
+				passThrough(p)
 				if p == sim.Killed {
 					panic(p)
 				}
